@@ -739,7 +739,7 @@ def unit(root='/repo'):
     ]
     G_CREATE = Group(IMPL + ' { // create', [
         F(PT, IMPL, 'create_file_excl', canary=True, sig_subst=[('fn create_file_excl(', 'fn create_file_excl<D: AsRawFd>('), ('dir: &impl AsRawFd', 'dir: &D')],
-          requires=['openat_ok(dir.sfd(), pathname@, flags | 0o100i32 | 0o200i32, mode, old(hs).euid, old(hs).egid) // [C05.create_file_excl.call] the creating open: flags | O_CREAT | O_EXCL',
+          requires=['openat_ok(dir.sfd(), pathname@, flags | 0o100i32 | 0o200i32 | 0o400000i32, mode, old(hs).euid, old(hs).egid) // [C05.create_file_excl.call] the creating open: flags | O_CREAT | O_EXCL | O_NOFOLLOW (D28: the kernel ignores O_CREAT | O_EXCL under O_PATH)',
                     'gated(pathname@) // [C06.gate.create_file_excl]'],
           ensures=['final(hs).rets.len() == old(hs).rets.len() + 1 && final(hs).rets.drop_last() == old(hs).rets && final(hs).rets.last().nr == 26',
                    'res is Ok && res->Ok_0 is Some ==> final(hs).rets.last().ret >= 0',
@@ -747,7 +747,7 @@ def unit(root='/repo'):
                    'res is Err ==> final(hs).rets.last().ret < 0 && failed_with(res, final(hs).rets.last()) // [C05.create_file_excl.errno]',
                    CREDS_KEPT, 'final(hs).pending == old(hs).pending'],
           body_resub=[(r'err\.kind\(\) == io::ErrorKind::AlreadyExists', 'matches!(err.kind(), io::ErrorKind::AlreadyExists)', '`==` of the derived PartialEq of a field-less enum -> matches! (same test; Verus has no specification for the derived eq)')],
-          splices=[('^', 'after', 'proof { assert(forall|f: i32| #![auto] (f | 0o100i32 | 0o200i32) & 0o100i32 == 0o100i32) by (bit_vector); }')]),
+          splices=[('^', 'after', 'proof { assert(forall|f: i32| #![auto] (f | 0o100i32 | 0o200i32) & 0o100i32 == 0o100i32) by (bit_vector); assert(forall|f: i32| #![auto] (f | 0o100i32 | 0o200i32 | 0o400000i32) & 0o100i32 == 0o100i32) by (bit_vector); }')]),
         F(PTS, FSIMPL + '#reopen', 'reopen', canary=True,
           locate=OV.r26_locate(FSIMPL, 'create', 'reopen', '&self', ['args: CreateIn', 'ctx: &Context', 'entry: &Entry']),
           requires=[ROOT, 'setresuid_ok(ctx.uid) && setresuid_ok(0) && setresgid_ok(ctx.gid) && setresgid_ok(0)',
@@ -757,7 +757,7 @@ def unit(root='/repo'):
     ])
     CREATE = F(PTS, FSIMPL, 'create', canary=True, hooks=[OV.r26_parent_hook('reopen', 'self.reopen(args, ctx, &entry')],
                requires=[S, ROOT, 'self.do_lookup_ok(parent, name@)'] + SETRES('ctx.uid', 'ctx.gid', 'create') + [
-                   'openat_ok(ino_fd(parent), name@, self.wb_flags(args.flags as i32) | 0o100i32 | 0o200i32, args.mode & !(args.umask & 0o777), ctx.uid, ctx.gid) // [C05.create.call] openat(parent fd, name, writeback-adjusted flags | O_CREAT | O_EXCL, mode & !umask) under the caller\'s ids',
+                   'openat_ok(ino_fd(parent), name@, self.wb_flags(args.flags as i32) | 0o100i32 | 0o200i32 | 0o400000i32, args.mode & !(args.umask & 0o777), ctx.uid, ctx.gid) // [C05.create.call] openat(parent fd, name, writeback-adjusted flags | O_CREAT | O_EXCL, mode & !umask) under the caller\'s ids',
                    '(self.killpriv_v2.cur() && args.fuse_flags & FOPEN_IN_KILL_SUIDGID != 0) ==> caps::caps_ok(true) // [C05.create.killpriv]',
                    'self.res_do_lookup(parent, name@) is Ok ==> forall|m: u32| safe_mode(m) ==> #[trigger] reopen_ok(self.res_do_lookup(parent, name@)->Ok_0.inode, m, self.io_flags(args.flags as i32) | 0o2000000i32) // [C05.create.reopen] an existing file is re-opened with the client\'s flags; special files never'],
                ensures=['%s <= 1 && (%s == 1 ==> %s.nr == 26) // [C05.create.once]' % (N, N, R0), '%s == 0 ==> res is Err // [C05.create.performed]' % N,
